@@ -67,6 +67,8 @@ pub struct State {
     pub in_callback_tables_walked: u64,
     /// frames poisoned by the deallocator during the current call
     pub poisoned_this_call: Vec<usize>,
+    /// what the deallocator left in each frame released during the current call (the mapper must not touch it again)
+    pub poison_copy: Vec<(usize, Vec<u64>)>,
     /// set of frames the monitor currently believes are tables (for frame_to_pointer checking)
     pub table_frames: BTreeMap<u64, u8>,
     /// scratch table handed out when the mapper asks for a frame that does not exist
@@ -195,6 +197,7 @@ impl Arena {
                 in_callback_checks: 0,
                 in_callback_tables_walked: 0,
                 poisoned_this_call: Vec::new(),
+                poison_copy: Vec::new(),
                 table_frames: BTreeMap::new(),
                 scratch,
                 contiguous_block: if is_memfd { None } else { block },
@@ -295,6 +298,7 @@ impl State {
         self.f2p_log.clear();
         self.requests_this_call = 0;
         self.poisoned_this_call.clear();
+        self.poison_copy.clear();
     }
     pub fn free_count(&self) -> usize {
         self.role.iter().filter(|&&r| r == Role::Free).count()
@@ -449,6 +453,8 @@ impl FrameDeallocator<Size4KiB> for ArenaAlloc {
                 if s.poison_on_free {
                     s.poison(i);
                     s.poisoned_this_call.push(i);
+                    let copy: Vec<u64> = (0..512).map(|k| s.read(i, k)).collect();
+                    s.poison_copy.push((i, copy));
                 }
             }
             Some(i) => {
